@@ -1062,6 +1062,14 @@ def trigger_scenarios(quick=False):
             ("bond-to-missing-atom", {"kind": "replace", "old": b_line,
                                       "new": b_line.replace(b_line.split()[2], "99", 1)})):
         t(f"ligand-mol2-{nm}", dict(LG, file_content={"ligand": fc}))
+    btype = b_line.split()[-1]
+    cut = b_line.rstrip().rfind(btype)
+    for bt in ("am", "du", "un", "nc", "xx"):
+        t(f"ligand-mol2-unsupported-bond-type:{bt}",
+          dict(LG, file_content={"ligand": {"kind": "replace", "old": b_line,
+                                            "new": b_line[:cut] + bt}}))
+    t("ligand-mol2-invalid-atom-type", dict(LG, file_content={"ligand": {
+        "kind": "replace", "old": "C.3       1 DRG", "new": "C.3.x     1 DRG"}}))
     t("ligand-without-hydrogens-nonintegral-charge", dict(LG, lig_drop_h=True))
     t("ligand-without-hydrogens-nonintegral-charge:parse-noopt",
       dict(LG, lig_drop_h=True, argv=["--ff=PARSE", "--noopt", "--ligand={ligand}"]))
@@ -1079,6 +1087,14 @@ def trigger_scenarios(quick=False):
     t("waters-only:assign-only", dict({"item": "1AJJ.pdb", "window": [0, 1], "waters": 10},
                                       damage=[[0, "drop_backbone"], [0, "keep_backbone"]],
                                       argv=["--ff=PARSE", "--assign-only"]))
+    # --assign-only on a structure without hydrogens: the histidine state cannot be told
+    t("assign-only-histidine-without-hd1-he2",
+      dict({"item": "1AJJ.pdb", "window": [3, 14]}, argv=["--ff=AMBER", "--assign-only"]))
+    # a water without a recognisable oxygen
+    t("water-without-oxygen", dict({"item": "1AJJ.pdb", "window": [3, 12], "waters": 6},
+                                   water_no_oxygen=2, argv=amber))
+    t("water-without-oxygen:noopt", dict({"item": "1AJJ.pdb", "window": [3, 12], "waters": 6},
+                                         water_no_oxygen=0, argv=["--ff=PARSE", "--noopt"]))
     # more unlabelled chains than there are labels ("Too many chains exist in biomolecule.
     # Consider preparing subsets.")
     t("too-many-unlabelled-chains:63",
@@ -1217,6 +1233,40 @@ def main(tier, seed):
 
     with driver.ServerPool([("w", {"PYTHONHASHSEED": "0"}, 16)], job_timeout=1500) as pool:
         results, skipped = pool.run({"w": order}, deadline=deadline, on_result=on_result)
+        # reach measure for the trigger catalogue: which of the repository's own `raise`
+        # statements does at least one trigger execute?  (steers the catalogue; no verdict)
+        raise_cov = {"raise_statements": 0, "reached_by_triggers": 0, "not_reached": []}
+        try:
+            import re as _re
+            repo_pkg = os.path.join(os.environ.get("VERIF_REPO", "/repo"), "pdb2pqr")
+            raises = []
+            for root_, _, files_ in sorted(os.walk(repo_pkg)):
+                for fn_ in sorted(files_):
+                    if fn_.endswith(".py"):
+                        p_ = os.path.join(root_, fn_)
+                        with open(p_, encoding="utf-8", errors="replace") as fh_:
+                            for i_, l_ in enumerate(fh_, 1):
+                                if _re.match(r"\s*raise\b", l_):
+                                    raises.append((p_[len(repo_pkg) + 1:], i_))
+            seen_names = set()
+            cjobs = []
+            for sc_ in trigger_scenarios():
+                if sc_["name"] not in seen_names:
+                    seen_names.add(sc_["name"])
+                    r_ = sc_["runs"][0]
+                    cjobs.append({"id": "cov:" + sc_["name"], "kind": "c12.cover_trigger",
+                                  "run": {"cfg": r_["cfg"], "faults": r_.get("faults")}})
+            cres, _ = pool.run({"w": cjobs}, deadline=deadline)
+            hit = set()
+            for m_ in cres["w"].values():
+                if "result" in m_:
+                    for f_, lns_ in m_["result"]["lines"].items():
+                        hit.update((f_, ln_) for ln_ in lns_)
+            raise_cov = {"raise_statements": len(raises),
+                         "reached_by_triggers": sum(1 for r_ in raises if r_ in hit),
+                         "not_reached": [f"{f_}:{ln_}" for f_, ln_ in raises if (f_, ln_) not in hit]}
+        except (OSError, driver.HarnessError):
+            pass
         # group findings, minimise the unlisted ones (triggers were run with keep_going)
         by_key = {}
         for jid, v in found:
@@ -1284,6 +1334,7 @@ def main(tier, seed):
                                 "file objects for watched paths are proxied (faults on "
                                 "schedule, otherwise pass-through to the real file system on tmpfs)"]},
         "triggers": len(trig), "net_scenarios": len(nets),
+        "trigger_reach": raise_cov,
         "known_findings_seen": {k: len(by_key[k]) for k in known_seen},
         "unlisted_violations": unknown,
         "jobs_skipped_by_deadline": len(skipped["w"]),
@@ -1330,3 +1381,30 @@ def replay(doc):
     v = m["result"]["violation"]
     print("replay: " + json.dumps({k: v[k] for k in v if k != "scenario"} if v else None))
     return 1 if v and v["kind"] == doc["kind"] else 0
+
+
+@world.job_kind("c12.cover_trigger")
+def job_cover_trigger(job, scratch):
+    """Analysis aid (not a check): which repository lines does a trigger run execute?"""
+    mon = sys.monitoring
+    tool = 3
+    pkg = world.REPO_PKG_DIR
+    hit = {}
+
+    def on_line(code, line):
+        fn = code.co_filename
+        if fn.startswith(pkg):
+            hit.setdefault(fn[len(pkg):], set()).add(line)
+        return mon.DISABLE
+
+    mon.use_tool_id(tool, "cover")
+    mon.register_callback(tool, mon.events.LINE, on_line)
+    mon.set_events(tool, mon.events.LINE)
+    try:
+        o = execute_run(dict(job["run"], entry="run_pdb2pqr"), scratch, 0, None, use_monitor=False)
+    finally:
+        mon.set_events(tool, 0)
+        mon.register_callback(tool, mon.events.LINE, None)
+        mon.free_tool_id(tool)
+    return {"outcome": o["outcome"], "exc": o["exc"],
+            "lines": {f: sorted(v) for f, v in sorted(hit.items())}}
